@@ -35,7 +35,7 @@ theorem trCases_case (fuel : Nat) (env : Src.Env) (he : env.subst = []) (t : Ev)
 /-- the environment of the case bodies -/
 def brkEnv (env : Src.Env) (k : Nat) : Src.Env := { env with brk := some k }
 
-theorem plainEnv_brkEnv {env : Src.Env} (he : PlainEnv env) (k : Nat) : PlainEnv (brkEnv env k) := ⟨he.1, he.2⟩
+theorem plainEnv_brkEnv {cx : Cx} {env : Src.Env} (he : EnvOK cx env) (k : Nat) : EnvOK cx (brkEnv env k) := ⟨he.1, he.2, he.3⟩
 
 /-- the handlers waiting for a block are cases without a body -/
 def wSrc : List (Option BP) → Src.Cases → Src.Cases
@@ -61,12 +61,12 @@ structure WaitSem (cx : Cx) (fuel : Nat) (sL : Nat) (w : List (Option BP)) (hs d
   dsome : hasNone w = true → ∃ o, d1 = [.ljump ⟨o, Gen.op_jump, []⟩ (some sL)]
   dnone : hasNone w = false → d1 = dIn
   sem : ∀ (envC : Src.Env), envC.subst = [] → ∀ (k nt : Nat) (SC0 : Src.Cases) (b : Src.B),
-    Grow (Src.trCases fuel [] envC SC0 k nt b).1 (Src.trCases fuel [] envC (wSrc w SC0) k nt b).1 ∧
+    Pushes (Src.trCases fuel [] envC SC0 k nt b).1 (Src.trCases fuel [] envC (wSrc w SC0) k nt b).1 ∧
     (Src.trCases fuel [] envC (wSrc w SC0) k nt b).2.1 = (Src.trCases fuel [] envC SC0 k nt b).2.1 ∧
     (Src.trCases fuel [] envC (wSrc w SC0) k nt b).2.2.2 =
       (if hasNone w then some (Src.trCases fuel [] envC SC0 k nt b).2.1 else (Src.trCases fuel [] envC SC0 k nt b).2.2.2) ∧
     ∀ r pH, Placed cx.rs r pH hs →
-      AgreeOn cx.N (Src.trCases fuel [] envC SC0 k nt b).1 (Src.trCases fuel [] envC (wSrc w SC0) k nt b).1 → ∀ m j,
+      AgreeOn cx.N cx.Z (Src.trCases fuel [] envC SC0 k nt b).1 (Src.trCases fuel [] envC (wSrc w SC0) k nt b).1 → ∀ m j,
       EE cx m (target cx.rs sL) (Src.trCases fuel [] envC SC0 k nt b).2.1 →
       R2 cx m j ⟨r, pH + hs.length⟩ (Src.trCases fuel [] envC SC0 k nt b).2.2.1 →
       R2 cx m j ⟨r, pH⟩ (Src.trCases fuel [] envC (wSrc w SC0) k nt b).2.2.1
@@ -81,7 +81,7 @@ theorem waiting_sem (cx : Cx) (fuel : Nat) (sL : Nat) : ∀ (w : List (Option BP
     obtain ⟨⟨rfl, rfl⟩, rfl⟩ := h
     refine ⟨SameStk.refl _, fun x hx => by simp at hx, fun h => by simp [hasNone] at h, fun _ => rfl, ?_⟩
     intro envC _ k nt SC0 b
-    refine ⟨Grow.refl _, rfl, rfl, fun r pH _ _ m j _ h => ?_⟩
+    refine ⟨Pushes.refl _, rfl, rfl, fun r pH _ _ m j _ h => ?_⟩
     simpa [wSrc] using h
   | cons x w ih =>
     intro dops s hs dops' s' hw h
@@ -115,7 +115,7 @@ theorem waiting_sem (cx : Cx) (fuel : Nat) (sL : Nat) : ∀ (w : List (Option BP
       obtain ⟨g, eb, ed, c⟩ := ws.sem envC he k nt SC0 b
       have htr := trCases_case fuel envC he ⟨bp.name, convParams bp.params⟩ .nil (wSrc w SC0) k nt b rfl (trStmts_nil fuel envC _ _)
       simp only [wSrc, htr, hasNone]
-      refine ⟨g.trans (Grow.push _ _), eb, ed, fun r pH hp hag m j hT hrest => ?_⟩
+      refine ⟨g.trans (Pushes.push _ _), eb, ed, fun r pH hp hag m j hT hrest => ?_⟩
       have hit : itemAt cx.rs ⟨r, pH⟩ = some (.ljump ⟨n, bp.name, bp.params⟩ (some sL)) := by simpa using hp.item (d := 0) rfl
       have hstep := lab_test hit (isTest_not_jump _ htest) htest
       have hpR : Placed cx.rs r (pH + 1) hs0 := by
@@ -128,7 +128,7 @@ theorem waiting_sem (cx : Cx) (fuel : Nat) (sL : Nat) : ∀ (w : List (Option BP
         obtain ⟨a1, a2⟩ := tbl_push (Src.trCases fuel [] envC (wSrc w SC0) k nt b).1
           (.test ⟨bp.name, convParams bp.params⟩ (Src.trCases fuel [] envC (wSrc w SC0) k nt b).2.1
             (Src.trCases fuel [] envC (wSrc w SC0) k nt b).2.2.1)
-        rw [hag _ g.len (by rw [a1]; simp), a1]
+        rw [hag.2 _ g.len (by rw [a1]; simp), a1]
         simp
       have hrest' := c r (pH + 1) hpR agR m j hT (by
         have e : pH + 1 + hs0.length = pH + (LItem.ljump ⟨n, bp.name, bp.params⟩ (some sL) :: hs0).length := by simp; omega
